@@ -197,7 +197,12 @@ func c08R2(p *Prog, r *Report, id string) {
 			return true
 		})
 		if store == nil {
-			r.Bad("enum.Detect/member filter", p.PosStr(fi.Decl.Pos()), "no member store found")
+			// the member loop may live in a private helper: decide on control dependence
+			if why := detectMemberFilterSSA(p); why == "" {
+				r.OK("enum.Detect/member filter", p.PosStr(fi.Decl.Pos()), "the member store depends only on `is a *types.Const` and types.Identical(enum type, constant type); the value is constant.Val(…)")
+			} else {
+				r.Bad("enum.Detect/member filter", p.PosStr(fi.Decl.Pos()), why)
+			}
 		} else {
 			bad := ""
 			// guards inside the loop only
@@ -481,6 +486,38 @@ func c08R2(p *Prog, r *Report, id string) {
 		}, nil); g != nil {
 			okDom = false
 		}
+	}
+	if !okDom {
+		// the default arm may be built by a private helper: evaluate — with enum:unknown empty no success; and no
+		// success without jen.Default() having been emitted
+		isUnknownEmpty := func(v ssa.Value) (bool, bool) {
+			b, ok := v.(*ssa.BinOp)
+			if !ok || (b.Op != token.EQL && b.Op != token.NEQ) {
+				return false, false
+			}
+			k, ok := b.Y.(*ssa.Const)
+			if !ok || k.Value == nil || k.Value.ExactString() != `""` || !loadsField(b.X, "Unknown") {
+				return false, false
+			}
+			return b.Op == token.EQL, true
+		}
+		nTest := 0
+		sc1 := &absScenario{assume: func(v ssa.Value, _ func(ssa.Value) absVal) (absVal, bool) {
+			if eq, ok := isUnknownEmpty(v); ok {
+				nTest++
+				return aBool(eq), true
+			}
+			return aUnknown, false
+		}}
+		okEmpty := absReach(sf, sc1, successGoal) == nil && nTest > 0
+		sc2 := &absScenario{marks: func(in ssa.Instruction) (string, bool) {
+			c, ok := in.(*ssa.Call)
+			return "default", ok && ssaCalleeObj(c) != nil && objPkgPath(ssaCalleeObj(c)) == jenPath && ssaCalleeObj(c).Name() == "Default"
+		}}
+		okDefault := absReachState(sf, sc2, func(ret *ssa.Return, eval func(ssa.Value) absVal, st map[string]absVal) bool {
+			return successGoal(ret, eval) && hasNonNilCode(ret) && !(st["@default"].k == absBool && st["@default"].b)
+		}) == nil
+		okDom = okEmpty && okDefault
 	}
 	if okDom {
 		r.OK("builder.(*Enum).Build/unknown policy", p.PosStr(fi.Decl.Pos()), "`enum:unknown` missing → error; jen.Default() appended on every successful path")
@@ -774,4 +811,70 @@ func sameVar(a, b ssa.Value) bool {
 	ua, ok1 := a.(*ssa.UnOp)
 	ub, ok2 := b.(*ssa.UnOp)
 	return ok1 && ok2 && ua.Op == token.MUL && ub.Op == token.MUL && ua.X == ub.X
+}
+
+// detectMemberFilterSSA: in enum.Detect and its private helpers, the store into the member map sits in a loop and is
+// control-dependent, inside that loop, only on the comma-ok assertion to *types.Const and on types.Identical; the value
+// stored is constant.Val(…).  "" = holds.
+func detectMemberFilterSSA(p *Prog) string {
+	n := 0
+	why := ""
+	for _, rf := range p.Region("enum.Detect") {
+		sf := p.SSAFunc(rf)
+		if sf == nil {
+			continue
+		}
+		allInstrs(sf, false, func(in ssa.Instruction) {
+			mu, ok := in.(*ssa.MapUpdate)
+			if !ok {
+				return
+			}
+			body, _ := loopBodyOf(mu)
+			if body == nil {
+				return
+			}
+			n++
+			if c, ok := stripConv(mu.Value).(*ssa.Call); !ok || ssaCalleeObj(c) == nil || !isFunc(ssaCalleeObj(c), "go/constant", "", "Val") {
+				why = "member values are not constant.Val(c.Val())"
+				return
+			}
+			for _, f := range factsAt(mu.Block()) {
+				v := f
+				neg := false
+				if nf, isNeg := f.(negFact); isNeg {
+					v, neg = nf.Value, true
+				}
+				def, isInstr := v.(ssa.Instruction)
+				if !isInstr || def.Block() == nil || !(body == def.Block() || body.Dominates(def.Block())) {
+					continue // established before the loop
+				}
+				switch x := v.(type) {
+				case *ssa.Extract:
+					if ta, ok := x.Tuple.(*ssa.TypeAssert); ok && x.Index == 1 && !neg && isNamed(derefType(ta.AssertedType), "go/types", "Const") {
+						continue
+					}
+					if _, isNext := x.Tuple.(*ssa.Next); isNext {
+						continue // the loop's own iteration condition
+					}
+				case *ssa.Call:
+					if !neg && ssaCalleeObj(x) != nil && isFunc(ssaCalleeObj(x), "go/types", "", "Identical") {
+						continue
+					}
+				case *ssa.Phi, *ssa.BinOp:
+					// materialised conjunctions / the loop condition itself
+					if _, isPhi := v.(*ssa.Phi); isPhi {
+						continue
+					}
+					if b, ok := v.(*ssa.BinOp); ok && b.Op == token.LSS {
+						continue // the loop's own index condition
+					}
+				}
+				why = "members are additionally filtered by `" + v.String() + "`: declared members would be missing from the generated switch and fall into enum:unknown"
+			}
+		})
+	}
+	if n == 0 {
+		return "no member store found"
+	}
+	return why
 }
